@@ -3,7 +3,7 @@ CONSTANTS
  Paths = {"p1","p2"}
  Branches = {"main","dev"}
  Ages = {0, 20}
- MaxCommits = 4
+ MaxCommits = 3
  MaxSteps = 6
  Emit = FALSE
  Modes = {"git-push"}
